@@ -404,16 +404,19 @@ def step (s : Sess) (line : String) : String × Sess :=
                         halted := isPanic txt }
       (txt ++ " | " ++ fmtEnc o.st, s)
     | _, _, _, _, _, _, _ => bad
-  | ["encap_frag", pdu, ctx, buf, reg] =>
-    match parseBS s pdu, parseCtx s ctx, parseBS s buf, reg.toNat? with
-    | some pdu, some ctx, some buf, some reg =>
+  | ["encap_frag", pdu, ctx, buf, reg, cout] =>
+    match parseBS s pdu, parseCtx s ctx, parseBS s buf, reg.toNat?, cout.toNat? with
+    | some pdu, some ctx, some buf, some reg, some cout =>
       let (r, b) := encapFrag pdu ctx buf
       let (txt, n, c) := fmtEncRes buf r b
-      let s := { s with regs := assocSet s.regs reg ⟨b, n⟩,
-                        ctxs := match c with | some c => assocSet s.ctxs reg c | none => assocDel s.ctxs reg,
-                        halted := isPanic txt }
+      -- chain register: advanced on a fragment, erased on completion, kept on error
+      let ctxs := match r, c with
+        | .ok _, some c => assocSet s.ctxs cout c
+        | .ok _, none => assocDel s.ctxs cout
+        | _, _ => s.ctxs
+      let s := { s with regs := assocSet s.regs reg ⟨b, n⟩, ctxs := ctxs, halted := isPanic txt }
       (txt ++ " | " ++ fmtEnc s.enc, s)
-    | _, _, _, _ => bad
+    | _, _, _, _, _ => bad
   | ["preview", pdu, pt, label, buflen] =>
     match parseBS s pdu, parseHexNat pt, parseLabel label, buflen.toNat? with
     | some pdu, some pt, some label, some n =>
@@ -477,12 +480,33 @@ def step (s : Sess) (line : String) : String × Sess :=
       let (txt, s) := doDecap s d b
       (txt, { s with halted := isPanic txt })
     | _, _ => bad
+  | ["decap_if", bs] =>
+    -- lock-step sessions: nothing was produced, nothing is fed
+    match s.dec, parseBS s bs with
+    | some d, some b =>
+      if b.isEmpty then ("skip | -", s) else
+      let (txt, s) := doDecap s d b
+      (txt, { s with halted := isPanic txt })
+    | _, _ => bad
   | ["walk", bs] =>
     match s.dec, parseBS s bs with
     | some d, some b =>
       let (txt, s) := doWalk s d b
       (txt, { s with halted := (txt.splitOn "panic").length > 1 })
     | _, _ => bad
+  | ["peek_if", bs] =>
+    match parseBS s bs with
+    | some b =>
+      if b.isEmpty then ("skip | -", s) else
+      match peek b with
+      | .ok (.fragId f) => (s!"ok fid {f} | -", s)
+      | .ok (.lbl l) => (s!"ok lbl {fmtLabel l} | -", s)
+      | .err .labelReuse => ("err reuse | -", s)
+      | .err .sizeBuffer => ("err size | -", s)
+      | .err .headerRead => ("err header | -", s)
+      | .err .unknownMandatoryHeader => ("err mandatory | -", s)
+      | .panic => ("panic | -", { s with halted := true })
+    | none => bad
   | ["peek", bs] =>
     match parseBS s bs with
     | some b =>
